@@ -20,7 +20,7 @@ build_demo() {
     bash -c "$(/verif/tools/demo_build_cmd.py $O/demo.cpp /tmp/seed_${ID}_demo)" 2>/tmp/seed_${ID}_demo_build.log || { echo "demo build failed"; tail -5 /tmp/seed_${ID}_demo_build.log; return 98; }
     timeout 600 /tmp/seed_${ID}_demo >/tmp/seed_${ID}_demo.out 2>&1; return $?
   elif [ -f $O/demo.sh ]; then
-    timeout 600 bash $O/demo.sh $W >/tmp/seed_${ID}_demo.out 2>&1; return $?
+    timeout 600 bash $O/demo.sh $W/_build/eph >/tmp/seed_${ID}_demo.out 2>&1; return $?
   fi
   return 99
 }
